@@ -26,6 +26,17 @@ CHECKS = {
             'Trusts the span checker (pv/spans.py, plain integer arithmetic on public attributes) '
             'and that % / \\ are the comment / escape characters.',
             'DESIGN.md 5 C01'),
+    'C04': ('exploration',
+            'Hypothesis (string, rule-list configuration) pairs against a reference model of the '
+            'documented encoding loop; concatenation law; partial-encoder model; cached-helper '
+            'histories',
+            'Thousands (quick) / >100k (thorough) generated rule lists mixing the three rule kinds '
+            'with overlapping matches, multi-character consumption, per-rule protection, all '
+            'protection schemes and unknown-character policies, compared chunk by chunk with a '
+            '60-line model; every built-in character singly under 60 option sets.',
+            'Model interprets plain-data rule descriptors; replace/unihex outputs judged by '
+            'predicate; no empty-match regex rules.',
+            'DESIGN.md 5 C04'),
     'C05': ('fault_enumeration',
             'bounded-exhaustive token soups + single-fault injection at every token boundary of '
             'Hypothesis-generated documents; oracle = exception type/location and mandatory '
